@@ -750,3 +750,29 @@ def check(case, ctx):
     if case["part"] == "filters":
         return _check_filters(case, ctx)
     raise AssertionError("unknown part %r" % case["part"])
+
+
+# ----------------------------------------------------------------------------
+# every direct library call made by this check must leave the arrays handed
+# to it unchanged (core.GuardedCalls)
+# ----------------------------------------------------------------------------
+def _guard_targets():
+    from pyphysim.mimo import mimo
+    t = []
+    for name in ("MimoBase", "Blast", "MRC", "MRT", "SVDMimo", "GMDMimo",
+                 "Alamouti"):
+        cls = getattr(mimo, name)
+        t += [(cls, n) for n in ("__init__", "encode", "decode",
+                                 "set_channel_matrix", "_calc_precoder",
+                                 "_calc_receive_filter",
+                                 "_calcZeroForceFilter", "_calcMMSEFilter")]
+    return t
+
+
+_unguarded_check = check
+
+
+def check(case, ctx):  # noqa: F811
+    from ..core import GuardedCalls
+    with GuardedCalls(_guard_targets(), dict(part=case.get("part"))):
+        return _unguarded_check(case, ctx)
